@@ -15,7 +15,9 @@ way `TexNode.all` builds it: `TexNode(expr)` with `.parent` set).
 
 Domain of the model (ops outside it are answered `FAIL` on the implementation side as well,
 see `OutOfDomain`): `ren`/`args` only on `TexCmd`/`TexNamedEnv` targets; `str` not on text
-leaves; `args` material must be expressions that `TexArgs` keeps (groups, commands); bare
+leaves; `args` material must be expressions that `TexArgs` keeps (groups, commands); `aop`
+(operations on the argument list itself: append/extend/insert/pop/remove/reverse/clear/slice/
+permutation and the take-edit-put-back forms) only on `TexCmd`/`TexNamedEnv` targets; bare
 `str` elements (inserted plain strings) are not addressable as *targets* through the
 `TexNode` API (they have no node), they are only ever context.
 
@@ -325,6 +327,17 @@ def apply_op(soup, op, salt=0, variant=None, sources=None):
         if not all(isinstance(m, (D.TexGroup, D.TexCmd)) for m in ms):
             raise OutOfDomain('TexArgs drops this material')
         node.args = D.TexArgs(ms)
+    elif kind == 'aop':
+        # an operation on the node's own argument list (model: .setArgs with the result of the
+        # same operation on a plain list, TexSoupModel/ArgsEdit.lean)
+        p = parse_path(words[1])
+        if not p:
+            raise BadPath('root')
+        P = Op(op, soup, sources)
+        node = node_for(soup, p)
+        if not isinstance(node.expr, (D.TexCmd, D.TexNamedEnv)):
+            raise OutOfDomain('args of %s' % type(node.expr).__name__)
+        perform(soup, P, coin)
     else:
         raise ValueError(op)
 
